@@ -15,6 +15,9 @@
 //!       zones = id:ts,ts;id:ts...   temporal artifacts are written by the real TemporalIndexBuilder from
 //!       events whose payload field t (or core timestamp) holds the stamps; then TemporalPruner::apply_temporal_only
 //!       -> NONE | Z <sorted zone ids, comma separated | ->
+//!   tsite_all <hex string>
+//!       all of the above on one string literal; the pruner's instant is observed with Eq over single-stamp zones
+//!       -> PDT=..;PD=..;W=..;SN=..;F=..;PR=<instant(s) the pruner looked up | ? | NONE>
 //!   tsite_matspec <hex since | -> <watermark ts> <watermark event id>
 //!       MaterializedQuerySpecExt::delta_command -> N | S <hex since of the delta command>
 use crate::probes::{hexs, unhex};
@@ -163,6 +166,55 @@ fn find_t_filter(groups: &[FilterGroup], want_op: Option<CompareOp>) -> Option<O
     None
 }
 
+/// Writes the temporal artifacts of the zones with the real TemporalIndexBuilder and runs the real pruner.
+fn prune_zones(col: &str, op: &CompareOp, val: &ScalarValue, zones: &[(u32, Vec<i64>)]) -> Result<Option<Vec<u32>>, String> {
+    let c = ctx();
+    let uid = c.rt.block_on(async { c.registry.read().await.get_uid("ev_dt") }).expect("uid");
+    let base = tempfile::tempdir().expect("tmp");
+    let seg_dir = base.path().join("00001");
+    std::fs::create_dir_all(&seg_dir).unwrap();
+    let mut plans = Vec::new();
+    let mut row = 0usize;
+    for (id, stamps) in zones {
+        let mut events: Vec<Event> = Vec::new();
+        for (i, ts) in stamps.iter().enumerate() {
+            let ev = if col == "timestamp" {
+                json!({"event_type": "ev_dt", "context_id": "c", "timestamp": *ts as u64, "payload": {"x": "a"}})
+            } else {
+                json!({"event_type": "ev_dt", "context_id": "c", "timestamp": 1000 + i as u64, "payload": {"t": ts, "x": "a"}})
+            };
+            events.push(serde_json::from_value(ev).expect("event"));
+        }
+        let n = events.len();
+        plans.push(ZonePlan {
+            id: *id,
+            start_index: row,
+            end_index: row + n - 1,
+            events,
+            uid: uid.clone(),
+            event_type: "ev_dt".into(),
+            segment_id: 1,
+            created_at: 0,
+        });
+        row += n;
+    }
+    if !plans.is_empty() {
+        let r = c.rt.block_on(
+            TemporalIndexBuilder::new(&uid, &seg_dir, Arc::clone(&c.registry)).build_for_zone_plans(&plans),
+        );
+        if r.is_err() { return Err("BUILDERR".into()); }
+    }
+    let base_dir = base.path().to_path_buf();
+    let pruner = TemporalPruner { artifacts: ZoneArtifacts { base_dir: &base_dir, caches: None } };
+    let args = PruneArgs { segment_id: "00001", uid: &uid, column: col, value: Some(val), op: Some(op) };
+    Ok(pruner.apply_temporal_only(&args).map(|zs| {
+        let mut ids: Vec<u32> = zs.iter().map(|z| z.zone_id).collect();
+        ids.sort();
+        ids.dedup();
+        ids
+    }))
+}
+
 pub fn run(t: &[String]) -> String {
     match t[0].as_str() {
         "tsite_payload" => {
@@ -224,60 +276,71 @@ pub fn run(t: &[String]) -> String {
             } else {
                 ScalarValue::Utf8(lit)
             };
-            let c = ctx();
-            let uid = c.rt.block_on(async { c.registry.read().await.get_uid("ev_dt") }).expect("uid");
-            let base = tempfile::tempdir().expect("tmp");
-            let seg_dir = base.path().join("00001");
-            std::fs::create_dir_all(&seg_dir).unwrap();
-            let mut plans = Vec::new();
-            let mut row = 0usize;
+            let mut zones: Vec<(u32, Vec<i64>)> = Vec::new();
             if t[5] != "-" {
                 for z in t[5].split(';') {
                     let (id, stamps) = z.split_once(':').expect("zone");
-                    let id: u32 = id.parse().unwrap();
-                    let mut events: Vec<Event> = Vec::new();
-                    for (i, s) in stamps.split(',').enumerate() {
-                        let ts: i64 = s.parse().unwrap();
-                        let ev = if col == "timestamp" {
-                            json!({"event_type": "ev_dt", "context_id": "c", "timestamp": ts as u64, "payload": {"x": "a"}})
-                        } else {
-                            json!({"event_type": "ev_dt", "context_id": "c", "timestamp": 1000 + i as u64, "payload": {"t": ts, "x": "a"}})
-                        };
-                        events.push(serde_json::from_value(ev).expect("event"));
-                    }
-                    let n = events.len();
-                    plans.push(ZonePlan {
-                        id,
-                        start_index: row,
-                        end_index: row + n - 1,
-                        events,
-                        uid: uid.clone(),
-                        event_type: "ev_dt".into(),
-                        segment_id: 1,
-                        created_at: 0,
-                    });
-                    row += n;
+                    zones.push((id.parse().unwrap(), stamps.split(',').map(|s| s.parse().unwrap()).collect()));
                 }
             }
-            if !plans.is_empty() {
-                let r = c.rt.block_on(
-                    TemporalIndexBuilder::new(&uid, &seg_dir, Arc::clone(&c.registry)).build_for_zone_plans(&plans),
-                );
-                if r.is_err() { return "BUILDERR".into(); }
-            }
-            let base_dir = base.path().to_path_buf();
-            let pruner = TemporalPruner { artifacts: ZoneArtifacts { base_dir: &base_dir, caches: None } };
-            let args = PruneArgs { segment_id: "00001", uid: &uid, column: col, value: Some(&val), op: Some(&op) };
-            match pruner.apply_temporal_only(&args) {
-                None => "NONE".into(),
-                Some(zs) => {
-                    let mut ids: Vec<u32> = zs.iter().map(|z| z.zone_id).collect();
-                    ids.sort();
-                    ids.dedup();
+            match prune_zones(col, &op, &val, &zones) {
+                Err(e) => e,
+                Ok(None) => "NONE".into(),
+                Ok(Some(ids)) => {
                     if ids.is_empty() { "Z -".into() }
                     else { format!("Z {}", ids.iter().map(|i| i.to_string()).collect::<Vec<_>>().join(",")) }
                 }
             }
+        }
+        // every site on the same string literal; the pruner's instant is observed with an Eq probe over
+        // one single-stamp zone per candidate (0 and the clamped values the other sites produced)
+        "tsite_all" => {
+            let lit = match String::from_utf8(unhex(&t[1])) { Ok(s) => s, Err(_) => return "BADUTF8".into() };
+            let jv = Value::String(lit.clone());
+            let pay = |ft: &str| -> String {
+                let schema = schema_of(ft);
+                let mut payload = json!({"t": jv.clone(), "x": "keep"});
+                match PayloadTimeNormalizer::new(&schema).normalize(&mut payload) {
+                    Err(_) => "E".into(),
+                    Ok(()) => after_state(payload.get("t")),
+                }
+            };
+            let p_dt = pay("dt");
+            let p_d = pay("d");
+            let e = Expr::Compare { field: "t".into(), op: CompareOp::Lt, value: jv.clone() };
+            let mut b = ConditionEvaluatorBuilder::new();
+            b.add_where_clause(&e);
+            let w = cond_on_t(&format!("{:?}", b.into_evaluator()));
+            let c = ctx();
+            let cmd = query("ev_dt", Some(lit.clone()), Some("t".into()), None);
+            let plan = c.rt.block_on(QueryPlan::build(&cmd, Arc::clone(&c.registry)));
+            let mut b = ConditionEvaluatorBuilder::new();
+            b.add_special_fields(&plan);
+            let sn = match cond_on_t(&format!("{:?}", b.into_evaluator())).as_str() {
+                "NONE" => "IGN".to_string(),
+                other => other.to_string(),
+            };
+            let cmd = query("ev_dt", None, None, Some(Expr::Compare { field: "t".into(), op: CompareOp::Eq, value: jv.clone() }));
+            let groups = c.rt.block_on(FilterGroupBuilder::build_all(&cmd, &c.registry));
+            let f = match find_t_filter(&groups, Some(CompareOp::Eq)) { Some(v) => scalar_state(v.as_ref()), None => "MISSING".into() };
+            // candidates
+            let mut cands: Vec<i64> = vec![0];
+            for s in [&p_dt, &p_d, &w, &sn, &f] {
+                if let Some(v) = s.split(' ').nth(1).and_then(|x| x.parse::<i64>().ok()) {
+                    if matches!(s.split(' ').next(), Some("S") | Some("NUM") | Some("I")) { cands.push(v.max(0)); }
+                }
+            }
+            cands.sort();
+            cands.dedup();
+            let zones: Vec<(u32, Vec<i64>)> = cands.iter().enumerate().map(|(i, v)| (i as u32, vec![*v])).collect();
+            let pr = match prune_zones("t", &CompareOp::Eq, &ScalarValue::Utf8(lit), &zones) {
+                Err(e) => e,
+                Ok(None) => "NONE".into(),
+                Ok(Some(ids)) => if ids.is_empty() { "?".into() } else {
+                    ids.iter().map(|i| cands[*i as usize].to_string()).collect::<Vec<_>>().join(",")
+                },
+            };
+            format!("PDT={};PD={};W={};SN={};F={};PR={}", p_dt, p_d, w, sn, f, pr)
         }
         "tsite_matspec" => {
             let since = if t[1] == "-" { None } else {
